@@ -108,6 +108,9 @@ def run(ctx):
             ops.insert(3, ("flush", 0))
         ops += [("add", 0, [rej]), ("commit", 0), ("open", 1), ("add", 1, [kid]), ("add", 1, [rej, kid]), ("commit", 1), ("sess",)]
         cases.append(("pos%d" % i, r.choice(["mem", "libc"]), g, d, ops))
+    for i in range(60 if ctx.thorough else 10):
+        d, ops = T.gen_merge_history(r, r.range(12, 34), ntx=r.choice([1, 2]), reject_w=25)
+        cases.append(("mgr%d" % i, r.choice(["mem", "libc"]), T.gid_of(d), d, ops))
     cases = T.replay_cases(ctx) or cases
     res, mm = T.run_cases(ctx, cases, "c06")
     if res is None:
